@@ -80,7 +80,7 @@ partial def enumerate (f : Facts) (handlers depth : Nat) (maxSends : Nat) (split
           | _ => []
         -- a close/delete on a handler that is not there yet adds nothing
         let skip := match e with
-          | .clientClose n => (s.hs n).cancelled || !(s.hs n).opened
+          | .clientClose n => (s.hs n).cancelled || !(s.hs n).opened || !(s.hs n).flushed   -- the peer can only drop a stream it has
           | .delete => s.table.isNone
           | _ => false
         if skip then [] else
